@@ -2,6 +2,7 @@ package files
 
 import (
 	"bytes"
+	"context"
 	"fmt"
 	"sort"
 	"strings"
@@ -32,6 +33,12 @@ type world struct {
 
 	delay chan struct{}
 	fired bool
+	// uploadCtx is the context of the uploader threads; with
+	// worldCfg.cancellable an environment event cancels it at any point
+	// while an upload is in progress (or before it starts).
+	uploadCtx       context.Context
+	cancelUpload    context.CancelFunc
+	uploadCancelled bool
 
 	// mu protects everything below; it is a real mutex that is never
 	// held across a scheduling point.
@@ -114,11 +121,33 @@ type worldCfg struct {
 	// viaDirectory: the file is the entry of a real in-memory directory
 	// wrapped in a real virtual build directory (part 4, dir_test.go).
 	viaDirectory bool
+	// cancellable: the context of the uploads may be cancelled at any
+	// point (free environment event).
+	cancellable bool
 }
 
 func newWorld(x *mc.X, cfg worldCfg) *world {
 	w := &world{x: x, log: &recordingErrorLogger{}, cas: &fakeCAS{}, delay: make(chan struct{}), expect: map[string][]byte{}, casFailed: map[string]bool{}, startVersion: map[string]int{}}
 	w.pool = &fakePool{fail: w.fail}
+	w.uploadCtx = ctx
+	if cfg.cancellable {
+		w.uploadCtx, w.cancelUpload = context.WithCancel(context.Background())
+		x.AddEvent(&mc.Event{
+			Name: "upload-context-cancelled",
+			Free: true,
+			Enabled: func() bool {
+				w.mu.Lock()
+				defer w.mu.Unlock()
+				return !w.uploadCancelled && w.uploadsLeft > 0
+			},
+			Fire: func() {
+				w.mu.Lock()
+				w.uploadCancelled = true
+				w.mu.Unlock()
+				w.cancelUpload()
+			},
+		})
+	}
 	if cfg.viaDirectory {
 		w.leaf, w.bd = newDirFile(w.pool, w.log, cfg.nfs, 0, w.cas)
 	} else {
@@ -286,7 +315,7 @@ func (w *world) key() string {
 	fmt.Fprintf(&b, "impl{rc=%d w=%d fz=%d nil=%v size=%d nmw=%v ufw=%v cached=%s hl=%d} pool{closed=%d uac=%d v=%d data=%q} env{fired=%v} model{held=%d pend=%d ent=%d up=%d want=%q pf=%d snap=%q/%d}",
 		d.ReferenceCount, d.WritableDescriptorsCount, d.FrozenDescriptorsCount, d.FileIsNil, d.Size,
 		d.NoMoreWritersWakeupSet, d.UnfreezeWakeupSet, cached, d.HandleLinkCount,
-		pf.closed, pf.usesAfterClose, pf.version(), pf.data, w.fired,
+		pf.closed, pf.usesAfterClose, pf.version(), pf.data, fmt.Sprint(w.fired, w.uploadCancelled),
 		w.held, w.pending, w.entries, w.uploadsLeft, w.want, w.prevFrozen, w.snap, w.snapVersion)
 	// The order of Puts and results does not influence anything later.
 	var tail []string
@@ -324,11 +353,12 @@ func (w *world) uploader(name string) {
 			w.mu.Unlock()
 		}
 		w.add(0, 1)
-		d, err := uploadFile(w.leaf, w.cas, sha256Fn, w.delay)
+		d, err := uploadFileCtx(w.uploadCtx, w.leaf, w.cas, sha256Fn, w.delay)
 		x.CheckNoLocksHeld("UploadFile")
 		w.add(0, -1)
 		w.mu.Lock()
 		w.uploadsLeft--
+		cancelled := w.uploadCancelled
 		w.mu.Unlock()
 		if !w.oracles() {
 			return
@@ -342,6 +372,16 @@ func (w *world) uploader(name string) {
 			switch {
 			case casFailed:
 				w.result("%s=cas-error", name)
+			case cancelled && status.Code(err) == codes.Canceled:
+				// The caller went away: the upload may fail, but it
+				// is over now - whatever reference it took has to be
+				// given back (lifetime oracle, writer liveness).
+				for _, p := range puts {
+					if !p.failed {
+						w.fail("cancelled-upload-stored", "%s: UploadFile failed with %v although the CAS accepted the contents", name, err)
+					}
+				}
+				w.result("%s=cancelled", name)
 			case status.Code(err) == codes.NotFound && pf.closed > 0 && len(puts) == 0:
 				// The file lost its last reference before the
 				// upload could take one.
@@ -671,6 +711,20 @@ func scenarios() []*mc.Scenario {
 		w.writer(false, false, mutWrite)
 		w.unlinker()
 	}))
+	// The caller of the upload goes away (context cancelled) at any point:
+	// before the upload starts, during the bounded wait for the writer, or
+	// around the transfer. The upload may fail then, but once it has
+	// returned it is not "in progress" any more: the writer must not stay
+	// blocked behind a frozen descriptor, and after the writer closed and the
+	// entry was removed the storage is released.
+	for _, nfs := range []bool{false, true} {
+		suffix := map[bool]string{false: "fuse", true: "nfs"}[nfs]
+		r = append(r, concScenario("heldwriter-upload-cancel-unlink/"+suffix, worldCfg{nfs: nfs, initial: "ab", heldWriter: true, cancellable: true}, 0, func(w *world) {
+			w.uploader("U")
+			w.writer(false, false, mutWrite)
+			w.unlinker()
+		}))
+	}
 	// O_TRUNC and allocation against an upload while hard links come and go.
 	r = append(r, concScenario("upload-trunc-link/nfs", worldCfg{nfs: true, initial: "abc", cached: true}, 0, func(w *world) {
 		w.uploader("U")
